@@ -159,3 +159,21 @@ Theorem C11_rules_total :
   lookup_rules name flattening_rules_table = Some rl -> adapt hash root rl false x <> RExc.
 Proof. exact adapt_total. Qed.
 Print Assumptions C11_rules_total.
+
+(* UN-FLATTENING.  From one entry "flattened name: absolute path" of the mapping attributes the
+   reader recovers exactly the group path, the name it records on the construct (the absolute
+   path, or the bare name in the root group) and the basename - for variables and (repaired
+   code, F11c) for dimensions. *)
+Theorem C11_unflatten :
+  forall hash p n, free slash (p ++ [n]) -> short p n ->
+  unflatten_var (flat_name hash p n) (pathname p n) =
+    (p, match p with [] => n | _ => pathname p n end, n).
+Proof. exact unflatten_var_spec. Qed.
+Print Assumptions C11_unflatten.
+
+Theorem C11_unflatten_dimension :
+  forall hash p n, free slash (p ++ [n]) -> short p n ->
+  unflatten_dim_gen true (flat_name hash p n) (pathname p n) =
+    (p, match p with [] => n | _ => pathname p n end, n).
+Proof. exact unflatten_dim_spec. Qed.
+Print Assumptions C11_unflatten_dimension.
